@@ -337,6 +337,97 @@ def _check_dtmem(run, repo, world):
                where(mod, c),
                sample={"rule": "R-DTMEM", "site": q, "memory": dtvar,
                        "assignment_forms": forms})
+        if modname == SER:
+            _every_observed_frame_updates(run, mod, fn, c, q, dtvar)
+
+
+def _every_observed_frame_updates(run, mod, fn, c, q, dtvar):
+    """Serial receivers: the frame handler is entered for every frame the
+    gateway reports, answers included.  Whenever the payload is a forward
+    frame (two or three bytes) the pass must end with the memory
+    re-assigned - also a pass that, for whatever reason (nobody subscribed,
+    a filter), does not get as far as decoding.  Decided on the worlds at
+    the exits: those whose conditions on the payload's length hold for a
+    length of 2 or 3 must have passed an assignment of the memory."""
+    from ..cfg import explicit_raise_only, forward_worlds
+    # the payload: second argument of the ForwardFrame the decoder is given
+    pay = None
+    a0 = c.args[0] if c.args else None
+    ff = a0
+    if isinstance(a0, ast.Name):
+        ds = [n.value for n in ast.walk(fn) if isinstance(n, ast.Assign)
+              and any(isinstance(t, ast.Name) and t.id == a0.id
+                      for t in n.targets)]
+        ff = ds[0] if len(ds) == 1 else None
+    if isinstance(ff, ast.Call) and len(ff.args) == 2 and isinstance(
+            ff.args[1], ast.Name):
+        pay = ff.args[1].id
+    if pay is None:
+        raise AnalysisError("%s: the payload the observed frame is built "
+                            "from is not a plain local" % q)
+    cfg = CFG(fn, may_raise=explicit_raise_only, name=q)
+
+    def tr(node, w):
+        w = kill_conds_on_assign(node, w)
+        if node.kind == "stmt" and isinstance(node.ast, ast.Assign) and any(
+                unparse(t) == dtvar for t in node.ast.targets):
+            w = w | {("dt-stored",)}
+        return w
+    W = forward_worlds(cfg, tr, cond_edge_transfer(), max_worlds=20000)
+
+    def holds(text, L):
+        """truth of a condition on the payload for a payload of L bytes, or
+        None when it is about something else"""
+        try:
+            e = ast.parse(text, mode="eval").body
+        except SyntaxError:
+            return None
+
+        class S(ast.NodeTransformer):
+            def visit_Call(self, n):
+                if unparse(n.func) == "len" and len(n.args) == 1 and \
+                        unparse(n.args[0]) == pay:
+                    return ast.copy_location(ast.Constant(L), n)
+                return self.generic_visit(n)
+        e = S().visit(e)
+        if isinstance(e, ast.Name) and e.id == pay:
+            return L > 0
+        if any(isinstance(x, (ast.Name, ast.Attribute, ast.Call,
+                              ast.Subscript)) for x in ast.walk(e)):
+            return None
+        try:
+            return bool(eval(compile(ast.fix_missing_locations(
+                ast.Expression(e)), "<cond>", "eval"), {"__builtins__": {}}))
+        except Exception:
+            return None
+    bad = None
+    n_fw = 0
+    for w in W.at(cfg.exit):
+        facts = [(f[1], f[2]) for f in w if f[0] == "cond"]
+        for L in (2, 3):
+            vals = [(holds(t, L), b) for (t, b) in facts]
+            about = [(v, b) for (v, b) in vals if v is not None]
+            if about and all(v == b for (v, b) in about):
+                n_fw += 1
+                if ("dt-stored",) not in w and bad is None:
+                    bad = (w, L)
+    if not n_fw:
+        if not any(n.kind == "test" and ("len(%s)" % pay) in unparse(
+                n.ast, 200) for n in cfg.reachable):
+            # the handler does not branch on this payload's length (the
+            # transmit confirmation: always a forward frame); the rule
+            # above, from the decode on, is all there is to say
+            return
+        raise AnalysisError("%s: no exit is reached under conditions that "
+                            "hold for a 2- or 3-byte payload" % q)
+    run.ob("R-DTMEM", "%s#%s-every-observed-frame" % (q, dtvar), bad is None,
+           "a pass of the handler for a %s-byte forward frame can end "
+           "without re-assigning `%s` (%s): the frame was on the bus whether "
+           "or not anybody listened, and the next one is decoded under a "
+           "stale device type" % (
+               bad[1] if bad else "", dtvar, path_str(
+                   W.trace(cfg.exit, bad[0])[-8:], 8) if bad else ""),
+           where(mod, fn))
 
 
 def _assign_without_decode(cfg, dtvar, decode_ids):
@@ -1032,6 +1123,42 @@ def _check_subs(run, repo, world):
                "that does not keep the returned handle / queue alive is "
                "silently unsubscribed by garbage collection",
                where(m_, cls_.node))
+    # one entry per subscription: the registries are keyed by the handle /
+    # the queue object itself, so two subscriptions get two entries only
+    # while those objects compare by identity - a class that defines (or is
+    # decorated into defining) __eq__ / __hash__ makes handles of one
+    # registry equal, and the second register() replaces the first
+    from ..front import ClassInfo
+    hk = cb.nested.get("_callback_handle") if hasattr(cb, "nested") else None
+    if hk is None:
+        hk = world.cls(HID + "._callback._callback_handle")
+    for (kcls, m_) in ((hk, mod), (dq, smod)):
+        if kcls is None:
+            raise AnalysisError("the subscription handle class is not found")
+        why = []
+        for k_ in kcls.mro:
+            if not isinstance(k_, ClassInfo):
+                continue
+            for dn in ("__eq__", "__hash__"):
+                if dn in k_.methods or dn in getattr(k_, "attrs", {}):
+                    why.append("%s defines %s" % (k_.name, dn))
+            for d_ in k_.node.decorator_list:
+                t_ = unparse(d_.func if isinstance(d_, ast.Call) else d_)
+                if t_.split(".")[-1] in ("dataclass", "total_ordering",
+                                         "define", "attrs", "s", "frozen"):
+                    eq_off = isinstance(d_, ast.Call) and any(
+                        kw.arg == "eq" and isinstance(
+                            kw.value, ast.Constant) and
+                        kw.value.value is False for kw in d_.keywords)
+                    if not eq_off:
+                        why.append("%s is decorated with @%s (generated "
+                                   "__eq__ / __hash__ over its fields)" % (
+                                       k_.name, unparse(d_, 40)))
+        run.ob("R-SUBS", "%s#identity-key" % kcls.qname, not why,
+               "subscriptions are keyed by objects of %s, which no longer "
+               "compare by identity (%s): a second subscription replaces "
+               "the first, and cancelling one cancels the other" % (
+                   kcls.name, "; ".join(why)), where(m_, kcls.node))
     add = dq.methods["add_handler"][1]
     dele = dq.methods["del_handler"][1]
     dist = dq.methods["distribute"][1]
